@@ -121,7 +121,8 @@ func runC01(c *vlib.Check) {
 	c.Rule = fmt.Sprintf("for each of the 27 operations x {request, response}: the rich baseline message (every field populated) and every message with <=%d site(s) deviating from it "+
 		"(k=2: pairs of related sites), sites = every scalar field x its boundary alphabet, every pointer nil/populated, every list 0/1/2 elements, every attribute slot x 50 standard + custom attributes, "+
 		"every key block slot x 13 key formats + wrapped + metadata-only, every object slot x 9 object types, credentials x 3 kinds; plus multi-item batches, unknown operations and failed/pending items; "+
-		"x protocol versions 1.0..1.4. distinct = distinct encodings of deviating messages", k)
+		"x protocol versions 1.0..1.4. The enumeration is repeated in a fresh child process that first uses every message type at version 1.4 (thorough: also 1.3), since the codec builds its per-type plans at first use. "+
+		"distinct = distinct encodings of deviating messages", k)
 	c.Assumptions = []string{"'carries exactly the populated elements' is judged by an independent reflective projection (msg.Projector) using the pinned tag registry and the pinned version table",
 		"equality of content is compared on the projected element trees (instants as seconds, big integers by value, generic attribute values by their TTLV content)",
 		"a failed response item without Result Reason is not a well-formed message (Result Reason is required for failures)"}
@@ -129,6 +130,7 @@ func runC01(c *vlib.Check) {
 	for _, op := range msg.Operations() {
 		jobs = append(jobs, c01job{op, false}, c01job{op, true})
 	}
+	warmFirstUse(jobs)
 	vlib.Parallel(len(jobs), 0, func(i int) {
 		n := 0
 		msg.Enumerate(jobs[i].op, jobs[i].resp, k, func(cs msg.Case) {
@@ -141,4 +143,5 @@ func runC01(c *vlib.Check) {
 	})
 	msg.ExtraCases(func(cs msg.Case) { c01Eval(c, cs) })
 	c.Exhaustive = true
+	c.RunHistories(firstUseHistories(c)[:1+len(firstUseHistories(c))/3])
 }
